@@ -518,19 +518,29 @@ def memoise_schema_compile() -> None:
     _COMPILE_CACHED = True
 
 
+def _fresh(x: Any) -> Any:
+    """a private copy for the code under test; `copy.deepcopy` is itself recursive (about three frames per nesting level), so for
+    a very deep mapping the HARNESS would overflow before the code under test is entered — then the object itself is passed
+    (nothing the validator does to it matters afterwards: every mapping is used once)"""
+    try:
+        return copy.deepcopy(x)
+    except RecursionError:
+        return x
+
+
 def run_mapping(d: dict[str, Any], strict: bool) -> dict[str, Any]:
     memoise_schema_compile()
     from poetry.core.factory import Factory
     from poetry.core.json import validate_object
 
     def body() -> dict[str, Any]:
-        r = Factory.validate(copy.deepcopy(d), strict=strict)
+        r = Factory.validate(_fresh(d), strict=strict)
         if not (isinstance(r, dict) and all(isinstance(v, list) and all(isinstance(x, str) for x in v) for v in r.values())):
             raise TypeError("Factory.validate did not return a mapping of message lists")
         n = sum(len(v) for v in r.values())
         for name, sub in (("poetry-schema", (d.get("tool") or {}).get("poetry") if isinstance(d.get("tool"), dict) else None),
                           ("project-schema", d.get("project"))):
-            e = validate_object(copy.deepcopy(sub), name)  # type: ignore[arg-type]
+            e = validate_object(_fresh(sub), name)  # type: ignore[arg-type]
             if not (isinstance(e, list) and all(isinstance(x, str) for x in e)):
                 raise TypeError("validate_object did not return a list of messages")
         return {"cls": "ok", "messages": n, "errors": len(r.get("errors", []))}
@@ -555,9 +565,9 @@ def schema_valid(d: dict[str, Any]) -> bool:
         project = d.get("project")
         if not isinstance(poetry, dict) or (project is not None and not isinstance(project, dict)):
             return False
-        if validate_object(copy.deepcopy(poetry), "poetry-schema"):
+        if validate_object(_fresh(poetry), "poetry-schema"):
             return False
-        return project is None or not validate_object(copy.deepcopy(project), "project-schema")
+        return project is None or not validate_object(_fresh(project), "project-schema")
     except Exception:  # noqa: BLE001
         return False
 
@@ -672,7 +682,10 @@ def shrink_mapping(d: dict[str, Any], strict: bool, label: str, key: str, budget
         for path in sorted(GF._paths(d), key=lambda p: (len(p), str(p))):
             if evals >= budget:
                 break
-            x = copy.deepcopy(d)
+            try:
+                x = copy.deepcopy(d)
+            except RecursionError:
+                return d          # too deep for the harness to copy: keep the unshrunk mapping
             try:
                 parent = GF._get(x, path[:-1])
                 del parent[path[-1]]
